@@ -760,3 +760,18 @@ Proof.
     destruct (ld7 _ _ _ _ _ _ _ _ _ Hst') as (L0 & _). rewrite L0. xs. reflexivity.
 Qed.
 Print Assumptions tr_rstr_make_general.
+
+(* rstr_make on the fast path, against RstrDefs.rstr_simple: the struct the C text builds is the model's record *)
+Corollary tr_rstr_make_model (m : mem) b (s : bytes) o flg ic r d fuel :
+  str_at m b s -> nonul s -> (o <= length s)%nat -> nth_error m G_meta = Some gb_meta ->
+  Z.of_nat (length s) < 2147483647 -> (length s < fuel)%nat -> rstr_simple ic (skipn o s) = Some r ->
+  callf cprog fuel (S (S d)) F_rstr_make [VPtr b (Z.of_nat o); VInt flg] m
+  = Ok (VPtr (S (length m)) 0,
+        m ++ [[VPtr b (Z.of_nat o)];
+              rstr_block (S (S (length m))) (Z.land flg RE_ICASE) (b2z (r_lbeg r)) (b2z (r_lend r)) (b2z (r_wbeg r)) (b2z (r_wend r));
+              cstr_block (zb (r_str r))]).
+Proof.
+  intros Hs Hnn Ho Hlit Hmax Hf Hsim. rewrite (rstr_simple_off s Hnn o Ho ic) in Hsim.
+  destruct (so_simple s o) eqn:Es; [|discriminate]. injection Hsim as <-. cbn [r_lbeg r_lend r_wbeg r_wend r_str].
+  exact (tr_rstr_make_simple m b s o flg d fuel Hs Hnn Ho Hlit Hmax Hf Es).
+Qed.
